@@ -74,10 +74,19 @@ static errcode_t raw_write_blk(io_channel channel, struct unix_private_data *dat
 	ENSURES(COVERS(channel, block, count) ?
 		(RET != 0 || g_disk == BUF_AT(channel, block, count, bufv)) : g_disk == OLD(g_disk));
 
+#ifdef CFG_BS
+static char CBUFS[8][CFG_BS];	/* content unconstrained under the verifier: see build_channel */
+#endif
+
 static void build_channel(void)
 {
 	LOAD_IN();
+#ifdef CFG_BS
+	/* configuration bound: these functions never compute with the block size, only pass buffers on */
+	ASSUME(IN.block_size == CFG_BS);
+#else
 	ASSUME(IN.block_size >= 1 && IN.block_size <= 65536);
+#endif
 	ASSUME(IN.ostar < IN.block_size);
 	memset(&CH, 0, sizeof(CH));
 	memset(&DATA, 0, sizeof(DATA));
@@ -90,11 +99,19 @@ static void build_channel(void)
 	DATA.magic = EXT2_ET_MAGIC_UNIX_IO_CHANNEL;
 	DATA.flags = IN.data_flags & ~IO_FLAG_THREADS;	/* threads: not applicable (DESIGN §C17) */
 	DATA.access_time = IN.access_time;
+	ASSUME(IN.access_time >= 0 && IN.access_time < 0x7fffff00);	/* assumption: < 2^31 cache accesses per channel (int counter) */
 	g_bstar = IN.bstar; g_ostar = IN.ostar; g_disk = IN.disk; g_logical = IN.logical;
 	g_nwrites = 0; g_choice = 0;
+#if defined(CFG_BS) && !defined(VERIF_NATIVE)
+	__CPROVER_havoc_object(CBUFS);
+#endif
 	for (int i = 0; i < CACHE_SIZE; i++) {
+#ifdef CFG_BS
+		DATA.cache[i].buf = CBUFS[i];
+#else
 		DATA.cache[i].buf = malloc(IN.block_size);
 		ASSUME(DATA.cache[i].buf != 0);
+#endif
 		DATA.cache[i].buf[IN.ostar] = IN.e[i].byte_at_ostar;
 		DATA.cache[i].block = IN.e[i].block;
 		DATA.cache[i].access_time = IN.e[i].access_time;
